@@ -64,7 +64,15 @@ def _len_ok(kind, Lp, lin, d, fn):
         # any spelling of "the number of bytes of the source" (which spelling is right for which kind of source is
         # decided by evaluation: rule B1e)
         forms = ("len(source)", "source.nbytes", "memoryview(source).nbytes", "getattr(source, 'nbytes', len(source))", "len(memoryview(source).cast('B'))", "memoryview(source).cast('B').nbytes")
-        return any(Lp == Poly.atom(f_) for f_ in forms), "byte length of the source"
+        if any(Lp == Poly.atom(f_) for f_ in forms):
+            return True, "byte length of the source"
+        # a local bound on several paths (try: the buffer's nbytes / except TypeError: len()) to such spellings only
+        ats = list(Lp.atoms())
+        if len(Lp.t) == 1 and len(ats) == 1 and list(Lp.t.values()) == [1] and "." not in ats[0] and "(" not in ats[0]:
+            defs = [v for v, _ in d.defs_of(ats[0])]
+            if defs and all(v is not None and norm(v) in forms for v in defs):
+                return True, "byte length of the source"
+        return False, "byte length of the source"
     if kind == "value-nbytes":
         ats = Lp.atoms()
         if len(Lp.t) == 1 and len(ats) == 1 and list(Lp.t.values()) == [1]:
